@@ -12,9 +12,17 @@ CIRC = "qp_wormhole_circuit"
 P_GOLD = 0xFFFFFFFF00000001
 
 
+def _err_only(g):
+    """the guard's failing edges return Err (the `else` arm of an exhaustive match on a Result is an `unreachable` block, not a panic path)"""
+    oc = set(g["outcome"])
+    if g.get("kind") == "match" and isinstance(g.get("fail_when"), list) and "else" in g["fail_when"]:
+        oc.discard("panic")
+    return oc <= {"err"}
+
+
 def err_guard(mv, op, a_pred, b_pred):
     hs = mv.rejects(op, a_pred, b_pred)
-    return [h for h in hs if h["outcome"] <= {"err"}]
+    return [h for h in hs if _err_only(h)]
 
 
 def dominates_calls(mv, g, pred):
@@ -42,13 +50,14 @@ def analyse25(ck):
     for g in mv.gt:
         r = guards.reject_condition(g)
         # `if v <= MASK { Ok } else { Err }`: the failing edge is the Err arm
-        if r and ((r[0] == "Gt" and P.norm(r[1]) == mv.param(1) and P.const_of(r[2]) == 0xFFFFFFFF)) and g["outcome"] <= {"err"}:
+        if r and ((r[0] == "Gt" and P.norm(r[1]) == mv.param(1) and P.const_of(r[2]) == 0xFFFFFFFF)) and _err_only(g):
             okl = True
     ob.add({"C25"}, okl, "CMP", "limb/as_32_bit_limb", "as_32_bit_limb(v) is Err exactly when v > 0xFFFF_FFFF", mv.loc0, [(T.show(g["cond"])[:80], g["fail_when"], sorted(g["outcome"])) for g in mv.gt])
     for fn in ("try_felts_to_u64", "try_felts_to_u128", "try_felt_to_quantized_u128"):
         mv = e2.MethodView(ck, "^" + S.replace("::", "::") + fn + "$", COMMON)
         # the per-felt step may be the loop body of the function or the closure of a `try_fold`: look in whichever body holds the check
-        holders = [(b_, [(bb, t) for bb, t in b_.calls() if t.get("name") == "as_32_bit_limb"]) for b_ in [mv.body] + prog.closures_of(mv.body)]
+        clos_ = _closure_ids(prog, mv.body)     # closures created in the (helper-expanded) body, wherever they were defined
+        holders = [(b_, [(bb, t) for bb, t in b_.calls() if t.get("name") == "as_32_bit_limb"]) for b_ in [mv.body] + clos_]
         holders = [(b_, l_) for b_, l_ in holders if l_]
         ok = len(holders) == 1 and len(holders[0][1]) == 1
         if ok:
@@ -56,7 +65,7 @@ def analyse25(ck):
             cb = guards.continue_block(hb, lim[0][0])
             # every accumulation (BitOr / Shl / Mul on the limb) is dominated by the successful limb check
             acc = [bi for bi, blk in enumerate(hb.blocks) for s in blk["s"] if s.get("r", {}).get("k") == "bin" and s["r"]["op"] in ("BitOr", "Shl", "ShlUnchecked", "Mul", "MulWithOverflow")]
-            other_acc = [1 for b_ in [mv.body] + prog.closures_of(mv.body) if b_ is not hb for blk in b_.blocks for s in blk["s"]
+            other_acc = [1 for b_ in [mv.body] + clos_ if b_ is not hb for blk in b_.blocks for s in blk["s"]
                          if s.get("r", {}).get("k") == "bin" and s["r"]["op"] in ("BitOr",)]
             ok = cb is not None and bool(acc) and all(cfg.dominates(hb, cb, bi) for bi in acc) and not other_acc
             hfr = mv.fr if hb is mv.body else T.Evaluator(prog).frame(hb)
@@ -555,11 +564,13 @@ def analyse35(ck):
             bs = [b for b in prog.find(rx + r".*::" + nm + "$", COMMON) if b.kind != "Closure"]
             for b in bs:
                 v = e2.MethodView(ck, "^" + re.escape(b.path) + "$", COMMON)
-                gg = err_guard(v, "Gt", lambda t: isinstance(t, tuple) and t[0] == "len", lambda t, c=cap: P.const_of(t) == c)
+                # the length compared is that of the visited string itself (the deserializer's argument), not of a slice derived from it
+                # (`v.trim_start_matches("0x").len()` lets arbitrarily long input through)
+                gg = err_guard(v, "Gt", lambda t, vv=v: isinstance(t, tuple) and t[0] == "len" and P.norm(t[1]) == vv.param(2), lambda t, c=cap: P.const_of(t) == c)
                 if len(gg) == 1:
                     n_ok += 1
                 locs.append(v.loc0)
-        ob.add({"C35"}, n_ok == len(names) and len(locs) == len(names), "CMP", "visitor/" + what, "%s visitor rejects len > cap in both visit_str and visit_string (%d/%d)" % (what, n_ok, len(names)), locs[0] if locs else None)
+        ob.add({"C35"}, n_ok == len(names) and len(locs) == len(names), "CMP", "visitor/" + what, "%s visitor rejects `value.len() > cap` (the raw length of the visited string) in both visit_str and visit_string (%d/%d)" % (what, n_ok, len(names)), locs[0] if locs else None)
     visitor_guards(r"deserialize_bounded_state_root::StateRootVisitor", caps["MAX_STATE_ROOT_HEX_LEN"], "state_root")
     visitor_guards(r"deserialize_bounded_storage_proof::.*NodeVisitor", caps["MAX_STORAGE_PROOF_NODE_HEX_LEN"], "storage-node")
     # bounded seq: len >= max → Err before push; with_capacity(min(hint, max))
